@@ -568,44 +568,42 @@ Section Embedded.
   Notation raw_props := (raw_props_gen env json_text).
 
   Definition E_value (f : nat) : Prop := forall t v txt,
-    enc_value f t v = Ok txt -> raw_ok t v -> exists J, reads txt J /\ wire_value t v J.
+    enc_value f t v = Ok txt -> exists J, reads txt J /\ wire_value t v J.
   Definition E_object (f : nat) : Prop := forall ps m txt,
-    enc_object f ps m = Ok txt -> raw_props ps m ->
+    enc_object f ps m = Ok txt ->
     exists ms, reads txt (JObj ms) /\ wire_members ps m ms.
   Definition E_oneof (f : nat) : Prop := forall ps m txt,
     Forall (fun p => p_path p <> []) ps ->
-    enc_oneof f ps m = Ok txt -> raw_props ps m ->
+    enc_oneof f ps m = Ok txt ->
     exists J, reads txt J /\ wire_oneof ps m J.
 
   Lemma e_array_step f it : E_value f -> forall l xs,
-    sequence (map (enc_value f it) l) = Ok xs -> Forall (raw_ok it) l ->
+    sequence (map (enc_value f it) l) = Ok xs ->
     exists tjs : list (list N * jvalue), xs = map fst tjs /\ Forall2 (wire_value it) l (map snd tjs) /\
                 Forall (fun tj => reads (fst tj) (snd tj)) tjs.
   Proof.
-    intros IH l. induction l as [|v r IHl]; intros xs H Hr; cbn [map sequence] in H.
+    intros IH l. induction l as [|v r IHl]; intros xs H; cbn [map sequence] in H.
     - injection H as <-. exists []. repeat split; constructor.
     - apply obind_ok in H as (x & Hx & H). apply omap_ok in H as (ys & Hys & ->).
-      inversion Hr as [|? ? Hv Hrr]; subst.
-      destruct (IH _ _ _ Hx Hv) as (J & Hrd & Hwire).
-      destruct (IHl _ Hys Hrr) as (tjs & -> & Hf & Hall).
+      destruct (IH _ _ _ Hx) as (J & Hrd & Hwire).
+      destruct (IHl _ Hys) as (tjs & -> & Hf & Hall).
       exists ((x, J) :: tjs). split; [reflexivity|]. split; [constructor; assumption|constructor; assumption].
   Qed.
 
   Lemma e_map_step f it : E_value f -> forall es xs,
     sequence (map (fun kv => obind (escape (fst kv)) (fun l => omap (member l) (enc_value f it (snd kv)))) es) = Ok xs ->
-    Forall (fun kv => raw_ok it (snd kv)) es ->
     exists l : list (list N * (list N * jvalue)), xs = map mtext l /\
       Forall2 (fun kv km => fst kv = fst km /\ wire_value it (snd kv) (snd km)) es (map mtree l) /\
       Forall (fun ktj => valid_utf8 (fst ktj) = true /\ reads (fst (snd ktj)) (snd (snd ktj))) l.
   Proof.
-    intros IH es. induction es as [|[k v] r IHl]; intros xs H Hr; cbn [map sequence] in H.
+    intros IH es. induction es as [|[k v] r IHl]; intros xs H; cbn [map sequence] in H.
     - injection H as <-. exists []. repeat split; constructor.
     - apply obind_ok in H as (x & Hx & H). apply omap_ok in H as (ys & Hys & ->).
-      inversion Hr as [|? ? Hv Hrr]; subst. cbn [fst snd] in *.
+      cbn [fst snd] in *.
       apply obind_ok in Hx as (l & Hl & Hx). apply omap_ok in Hx as (b & Hb & ->).
       apply escape_ok in Hl as [Hk ->].
-      destruct (IH _ _ _ Hb Hv) as (J & Hrd & Hwire).
-      destruct (IHl _ Hys Hrr) as (ms & -> & Hf & Hall).
+      destruct (IH _ _ _ Hb) as (J & Hrd & Hwire).
+      destruct (IHl _ Hys) as (ms & -> & Hf & Hall).
       exists ((k, (b, J)) :: ms). split; [reflexivity|].
       split; [constructor; [split; [reflexivity|exact Hwire]|exact Hf]|].
       constructor; [split; assumption|exact Hall].
@@ -617,20 +615,19 @@ Section Embedded.
               | None => Ok []
               | Some v => obind (escape (p_json p)) (fun l => omap (fun b => [member l b]) (enc_value f (p_ty p) v))
               end)) ps) = Ok xs ->
-    (forall p v, In p ps -> prop_present env p m = Some v -> raw_ok (p_ty p) v) ->
     exists l : list (list N * (list N * jvalue)), concat xs = map mtext l /\ wire_members ps m (map mtree l) /\
       Forall (fun ktj => valid_utf8 (fst ktj) = true /\ reads (fst (snd ktj)) (snd (snd ktj))) l.
   Proof.
-    intros IH ps. induction ps as [|p r IHl]; intros xs H Hr; cbn [map sequence] in H.
+    intros IH ps. induction ps as [|p r IHl]; intros xs H; cbn [map sequence] in H.
     - injection H as <-. exists []. repeat split; constructor.
     - apply obind_ok in H as (x & Hx & H). apply omap_ok in H as (ys & Hys & ->).
       apply obind_ok in Hx as (ov & Hov & Hx).
       apply (prop_lookup_present env Hflat) in Hov.
-      destruct (IHl _ Hys ltac:(intros; eapply Hr; [right|]; eassumption)) as (ms & Hc & Hm & Hall).
+      destruct (IHl _ Hys) as (ms & Hc & Hm & Hall).
       destruct ov as [v|].
       + apply obind_ok in Hx as (l & Hl & Hx). apply omap_ok in Hx as (b & Hb & ->).
         apply escape_ok in Hl as [Hk ->].
-        destruct (IH _ _ _ Hb (Hr p v (or_introl eq_refl) Hov)) as (J & Hrd & Hwire).
+        destruct (IH _ _ _ Hb) as (J & Hrd & Hwire).
         exists ((p_json p, (b, J)) :: ms). split; [cbn [concat map app]; rewrite Hc; reflexivity|].
         split; [cbn [map]; eapply WM_set; eassumption|]. constructor; [split; assumption|exact Hall].
       + injection Hx as <-.
@@ -641,10 +638,10 @@ Section Embedded.
   Proof. reflexivity. Qed.
 
   Lemma e_any pb m txt :
-    enc_any any_inner pb m = Ok txt -> raw_ok (FAny pb) (VMsg m) ->
+    enc_any any_inner pb m = Ok txt ->
     exists J, reads txt J /\ wire_value (FAny pb) (VMsg m) J.
   Proof.
-    intros H Hraw. unfold enc_any in H.
+    intros H. unfold enc_any in H.
     apply obind_ok in H as (tn0 & Htn & H). apply obind_ok in H as (data & Hdata & H).
     apply obind_ok in H as (l1 & Hl1 & H). apply obind_ok in H as (t & Ht & H).
     apply obind_ok in H as (l2 & Hl2 & H). injection H as <-.
@@ -654,14 +651,14 @@ Section Embedded.
       - apply obind_ok in Hdata as (pbytes & _ & Hd). eapply Hinner; exact Hd.
       - destruct (msg_get 3 m) as [[]|] eqn:E3;
           try (apply obind_ok in Hdata as (pbytes & _ & Hd); eapply Hinner; exact Hd).
-        injection Hdata as <-. inversion Hraw as [| | | | | |? ? Hr]; subst. eapply Hr; eauto. }
+        apply stored_json_ok in Hdata as [-> Hj]. exact Hj. }
     destruct Hc as (Jd & Hd).
     set (tn := if pb then trim_prefix any_prefix tn0 else tn0) in *.
     exists (JObj [(txt_type, JStr tn); (txt_value, Jd)]). split.
     - apply reads_any; assumption.
     - assert (tn = any_type_name pb m) as ->.
       { unfold any_type_name, tn. rewrite (field_bytes_s _ _ _ Htn). reflexivity. }
-      constructor. intros s -> E3. rewrite E3 in Hdata. injection Hdata as <-. exact Hd.
+      constructor. intros s -> E3. rewrite E3 in Hdata. apply stored_json_ok in Hdata as [E _]. subst. exact Hd.
   Qed.
 
   Lemma e_structure : forall f, E_value f /\ E_object f /\ E_oneof f.
@@ -669,21 +666,19 @@ Section Embedded.
     induction f as [|f (IHv & IHo & IHn)].
     - repeat split; intros *; cbn; discriminate || (intros; discriminate).
     - assert (Hobj : E_object (S f)).
-      { intros ps m txt H Hraw. rewrite enc_object_S in H.
+      { intros ps m txt H. rewrite enc_object_S in H.
         apply omap_ok in H as (xs & Hxs & ->).
-        inversion Hraw as [? ? Hr]; subst.
-        destruct (e_object_step f m IHv ps xs Hxs Hr) as (l & Hc & Hm & Hall).
+        destruct (e_object_step f m IHv ps xs Hxs) as (l & Hc & Hm & Hall).
         exists (map mtree l). split; [|exact Hm]. unfold join_b. rewrite Hc. apply reads_obj. exact Hall. }
       assert (Hone : E_oneof (S f)).
-      { intros ps m txt HF H Hraw. rewrite enc_oneof_S in H.
+      { intros ps m txt HF H. rewrite enc_oneof_S in H.
         apply obind_ok in H as (o & Ho & H). apply (get_one_spec env ps m o HF) in Ho.
         destruct o as [[p v]|].
         - destruct Ho as (Hin & Hp & Hoth).
           apply obind_ok in H as (l1 & Hl1 & H). apply obind_ok in H as (nm & Hnm & H).
           apply obind_ok in H as (b & Hb & H). injection H as <-.
           apply escape_ok in Hl1 as [_ ->]. apply escape_ok in Hnm as [Hk ->].
-          inversion Hraw as [? ? Hr]; subst.
-          destruct (IHv _ _ _ Hb (Hr p v Hin Hp)) as (J & Hrd & Hwire).
+          destruct (IHv _ _ _ Hb) as (J & Hrd & Hwire).
           exists (JObj [(txt_type, JStr (p_json p)); (p_json p, J)]). split.
           + rewrite (member_mtext txt_type _ (JStr (p_json p))), (member_mtext (p_json p) b J).
             match goal with |- reads ?T _ =>
@@ -696,7 +691,7 @@ Section Embedded.
           + eapply WO_one; eassumption.
         - injection H as <-. exists (JObj []). split; [apply (reads_print (JObj [])); reflexivity|]. apply WO_empty. exact Ho. }
       split; [|split; assumption].
-      intros t v txt H Hraw. rewrite enc_value_S in H. destruct t as [k|r|r|r|it|it|pb].
+      intros t v txt H. rewrite enc_value_S in H. destruct t as [k|r|r|r|it|it|pb].
       + destruct (enc_scalar_tree fmt_float Hfloat k v txt H) as (J & Hw & -> & Hs).
         exists J. split; [apply reads_print; exact Hw|]. constructor. exact Hs.
       + destruct (lookup env r) as [[ps|ps|pre opts]|] eqn:El; try discriminate.
@@ -704,20 +699,18 @@ Section Embedded.
         apply escape_ok in H as [Hv ->]. exists (JStr name). split; [apply reads_print; exact Hv|].
         econstructor; eassumption.
       + destruct (lookup env r) as [[ps|ps|pre opts]|] eqn:El; try discriminate.
-        destruct v; try discriminate. inversion Hraw as [| |? ? Hr| | | |]; subst.
-        destruct (IHo _ _ _ H (Hr _ _ El eq_refl)) as (ms & Ht & Hm).
+        destruct v; try discriminate.
+        destruct (IHo _ _ _ H) as (ms & Ht & Hm).
         exists (JObj ms). split; [exact Ht|]. econstructor; eassumption.
       + destruct (lookup env r) as [[ps|ps|pre opts]|] eqn:El; try discriminate.
-        destruct v; try discriminate. inversion Hraw as [| | |? ? Hr| | |]; subst.
-        destruct (IHn _ _ _ (Hflat _ _ El) H (Hr _ _ El eq_refl)) as (J & Ht & Hm).
+        destruct v; try discriminate.
+        destruct (IHn _ _ _ (Hflat _ _ El) H) as (J & Ht & Hm).
         exists J. split; [exact Ht|]. econstructor; eassumption.
       + destruct v; try discriminate. apply omap_ok in H as (xs & Hxs & ->).
-        inversion Hraw as [| | | |? ? Hr| |]; subst.
-        destruct (e_array_step f it IHv _ _ Hxs (Hr _ eq_refl)) as (tjs & -> & Hf & Hall).
+        destruct (e_array_step f it IHv _ _ Hxs) as (tjs & -> & Hf & Hall).
         exists (JArr (map snd tjs)). split; [unfold join_b; apply reads_arr; exact Hall|]. constructor. exact Hf.
       + destruct v; try discriminate. apply omap_ok in H as (xs & Hxs & ->).
-        inversion Hraw as [| | | | |? ? Hr|]; subst.
-        destruct (e_map_step f it IHv _ _ Hxs (Hr _ eq_refl)) as (l & -> & Hf & Hall).
+        destruct (e_map_step f it IHv _ _ Hxs) as (l & -> & Hf & Hall).
         exists (JObj (map mtree l)). split; [unfold join_b; apply reads_obj; exact Hall|]. constructor. exact Hf.
       + destruct v; try discriminate. apply e_any; assumption.
   Qed.
@@ -728,17 +721,18 @@ Section Embedded.
     rewrite app_nil_r in H. rewrite H. reflexivity.
   Qed.
 
-  (* C08 at full strength: embedded Any payload texts are arbitrary JSON documents *)
+  (* C08 at full strength: no condition on the message — the encoder itself refuses a stored j5_json
+     text that is not a JSON document (stored_json), every other embedded text is an inner encoding *)
   Theorem encode_wellformed_full root m txt :
-    encode fmt_float any_inner env root m = Ok txt -> raw_root_gen env json_text root m ->
+    encode fmt_float any_inner env root m = Ok txt ->
     exists J, strict_parse txt = Some J /\ wire_format fmt_float env root m J.
   Proof.
-    unfold encode, encode_fuel, raw_root_gen, wire_format. intros H Hraw.
+    unfold encode, encode_fuel, wire_format. intros H.
     set (f := (4 * pval_depth (VMsg m) + 4)%nat) in *.
     destruct (e_structure f) as (_ & Ho & Hn).
     destruct (lookup env root) as [[ps|ps|pre opts]|] eqn:El; try discriminate.
-    - destruct (Ho _ _ _ H Hraw) as (ms & Hrd & Hm). exists (JObj ms). split; [apply reads_strict; exact Hrd|].
+    - destruct (Ho _ _ _ H) as (ms & Hrd & Hm). exists (JObj ms). split; [apply reads_strict; exact Hrd|].
       exists ms. split; [reflexivity|exact Hm].
-    - destruct (Hn _ _ _ (Hflat _ _ El) H Hraw) as (J & Hrd & Hm). exists J. split; [apply reads_strict; exact Hrd|exact Hm].
+    - destruct (Hn _ _ _ (Hflat _ _ El) H) as (J & Hrd & Hm). exists J. split; [apply reads_strict; exact Hrd|exact Hm].
   Qed.
 End Embedded.
